@@ -4,6 +4,66 @@
 
 use std::sync::atomic::{AtomicBool, AtomicU64, Ordering};
 
+/// Exit code of a batch process whose watchdog found a worker stuck in one block (the library
+/// spins or blocks inside a call). The supervising parent (isolate::supervise) then finds the run.
+pub const STALL_EXIT: i32 = 86;
+/// CPU seconds (or seconds blocked) one block of runs may take; a block is at most 256 runs of
+/// milliseconds each.
+pub const STALL_LIMIT_S: u64 = 30;
+
+/// What the watchdog knows about one worker: thread id, when its current block started (ms
+/// since the batch began, 0 = idle) and the thread's CPU time then (ms).
+#[derive(Default)]
+struct WorkerState {
+    tid: AtomicU64,
+    started_ms: AtomicU64,
+    cpu_ms_at_start: AtomicU64,
+    block_lo: AtomicU64,
+}
+
+/// Kernel id of the calling thread, from the /proc/thread-self link (".../task/<tid>").
+fn own_tid() -> u64 {
+    std::fs::read_link("/proc/thread-self").ok().and_then(|p| p.file_name().and_then(|n| n.to_str().and_then(|n| n.parse().ok()))).unwrap_or(0)
+}
+
+fn thread_stat(tid: u64) -> Option<(char, u64)> {
+    let s = std::fs::read_to_string(format!("/proc/self/task/{tid}/stat")).ok()?;
+    let rest = &s[s.rfind(')')? + 1..];
+    let f: Vec<&str> = rest.split_whitespace().collect();
+    let state = f.first()?.chars().next()?;
+    let ut: u64 = f.get(11)?.parse().ok()?;
+    let st: u64 = f.get(12)?.parse().ok()?;
+    Some((state, (ut + st) * 10))
+}
+
+fn watchdog(states: &[WorkerState], t0: std::time::Instant, done: &AtomicBool) {
+    // per worker: (block start seen, last CPU value, when it last changed)
+    let mut last: Vec<(u64, u64, std::time::Instant)> = states.iter().map(|_| (0, 0, t0)).collect();
+    while !done.load(Ordering::Relaxed) {
+        std::thread::sleep(std::time::Duration::from_millis(500));
+        let now_ms = t0.elapsed().as_millis() as u64;
+        for (w, st) in states.iter().enumerate() {
+            let started = st.started_ms.load(Ordering::Relaxed);
+            if started == 0 || now_ms.saturating_sub(started) <= STALL_LIMIT_S * 1000 {
+                continue;
+            }
+            let tid = st.tid.load(Ordering::Relaxed);
+            let Some((state, cpu_ms)) = thread_stat(tid) else { continue };
+            if last[w].0 != started || last[w].1 != cpu_ms {
+                last[w] = (started, cpu_ms, std::time::Instant::now());
+            }
+            let burnt = cpu_ms.saturating_sub(st.cpu_ms_at_start.load(Ordering::Relaxed)) > STALL_LIMIT_S * 1000;
+            let blocked = state == 'S' && last[w].2.elapsed().as_secs() > STALL_LIMIT_S;
+            let outer = now_ms.saturating_sub(started) > STALL_LIMIT_S * 10_000;
+            if burnt || blocked || outer {
+                // the started block does not end: leave it to the supervising process to find the run
+                eprintln!("STALL: worker {w} has been in the block starting at run {} for {} s ({})", st.block_lo.load(Ordering::Relaxed), (now_ms - started) / 1000, if blocked { "blocked" } else { "spinning" });
+                std::process::exit(STALL_EXIT);
+            }
+        }
+    }
+}
+
 pub fn workers_from_env() -> usize {
     std::env::var("VERIF_WORKERS")
         .ok()
@@ -37,7 +97,13 @@ where
     let workers = workers.max(1);
     let block = block.max(1);
     let mut out = Vec::with_capacity(workers);
+    let states: Vec<WorkerState> = (0..workers).map(|_| WorkerState::default()).collect();
+    let t0 = std::time::Instant::now();
+    let done = AtomicBool::new(false);
     std::thread::scope(|s| {
+        let states = &states;
+        let done = &done;
+        s.spawn(move || watchdog(states, t0, done));
         let mut hs = Vec::new();
         for w in 0..workers {
             let next = &next;
@@ -49,6 +115,7 @@ where
                     .stack_size(64 << 20)
                     .spawn_scoped(s, move || {
                         let mut acc = make(w);
+                        states[w].tid.store(own_tid(), Ordering::Relaxed);
                         loop {
                             if stop.load(Ordering::Relaxed) {
                                 break;
@@ -58,7 +125,12 @@ where
                                 break;
                             }
                             let hi = (lo + block).min(n);
+                            let tid = states[w].tid.load(Ordering::Relaxed);
+                            states[w].cpu_ms_at_start.store(thread_stat(tid).map(|x| x.1).unwrap_or(0), Ordering::Relaxed);
+                            states[w].block_lo.store(lo, Ordering::Relaxed);
+                            states[w].started_ms.store(t0.elapsed().as_millis() as u64 + 1, Ordering::Relaxed);
                             f(&mut acc, lo, hi, stop);
+                            states[w].started_ms.store(0, Ordering::Relaxed);
                         }
                         acc
                     })
@@ -74,6 +146,7 @@ where
                 }
             }
         }
+        done.store(true, Ordering::Relaxed);
     });
     out
 }
